@@ -836,6 +836,24 @@ def _hoist_first_operand(tree: ast.Module) -> None:
             setattr(holder, field, new)
 
 
+def _last_arg_keyword(tree: ast.Module) -> None:
+    """self.m(a, b) / cls.m(a, b) -> self.m(a, b=b) for methods m defined in the same class (parameter name from the definition)"""
+    for cls in ast.walk(tree):
+        if not isinstance(cls, ast.ClassDef):
+            continue
+        table = {}
+        for st in cls.body:
+            if isinstance(st, ast.FunctionDef) and not st.args.vararg and not st.args.posonlyargs:
+                static = any(isinstance(d, ast.Name) and d.id == "staticmethod" for d in st.decorator_list)
+                table[st.name] = [a.arg for a in st.args.args][0 if static else 1:]
+        for call in ast.walk(cls):
+            if isinstance(call, ast.Call) and isinstance(call.func, ast.Attribute) and isinstance(call.func.value, ast.Name) and call.func.value.id in ("self", "cls") \
+                    and call.func.attr in table and call.args and not call.keywords and not any(isinstance(a, ast.Starred) for a in call.args) and len(call.args) <= len(table[call.func.attr]):
+                name = table[call.func.attr][len(call.args) - 1]
+                call.keywords = [ast.keyword(arg=name, value=call.args[-1])]
+                call.args = call.args[:-1]
+
+
 def _guard_to_wrap(tree: ast.Module) -> None:
     """in a function that returns no value and is not a generator:  if c: return; REST  ->  if not c: REST"""
     for fn in ast.walk(tree):
@@ -1141,6 +1159,7 @@ def equiv_table():
     ("in-to-or", _transformer(_InToOr), "x in (a, b) -> x == a or x == b"),
     ("or-to-in", _transformer(_OrToIn), "x == a or x == b -> x in (a, b)"),
     ("unpack-by-index", _fix(_unpack_by_index), "a, b = t -> a = t[0]; b = t[1]"),
+    ("last-arg-keyword", _fix(_last_arg_keyword), "self.m(a, b) -> self.m(a, b=b)"),
     ("guard-to-wrap", _fix(_guard_to_wrap), "procedure: if c: return; REST -> if not c: REST"),
     ("wrap-to-guard", _fix(_wrap_to_guard), "procedure ending in if c: BODY -> if not c: return; BODY"),
     ("slice-spelling", _transformer(_SliceSpelling), "x[:k] -> x[0:k]; x[a:] -> x[a:len(x)]"),
